@@ -21,10 +21,12 @@ type GenOpts struct {
 	MaxProbes                         int // bound on the number of probe instances of one run
 	ExitCodes                         []int
 	PEnvUse                           float64
+	PPair                             float64 // probability that a passed value is a pair of variables
 }
 
 var names = []string{"a", "b", "c", "d", "e", "f", "g", "h"}
 var vvals = []string{"one", "two"}
+var pairvals = []string{"one+two", "two+one", "one+one"}
 var items = [][]string{{"one", "two"}, {"two", "one"}, {"x", "y"}, {"one"}, {"x", "one", "two"}}
 
 func pick[T any](r *rand.Rand, xs []T) T { return xs[r.Intn(len(xs))] }
@@ -36,6 +38,9 @@ func genCS(r *rand.Rand, o GenOpts, callee string, allowFor bool) CallSite {
 		cs.For = append([]string(nil), pick(r, items)...)
 	case r.Float64() < o.PPassV:
 		cs.V = pick(r, []string{"one", "two", "$"})
+		if o.PPair > 0 && r.Float64() < o.PPair {
+			cs.V = pick(r, pairvals)
+		}
 	}
 	return cs
 }
@@ -293,6 +298,14 @@ func Core() []*Program {
 			"c": {Deps: []CallSite{dep("d")}, Cmds: []Cmd{sh(0)}},
 			"d": {Run: "once", Cmds: []Cmd{sh(3)}},
 		}))
+		// the shared once task is cancelled (not failed) next to its first caller; a later caller must not proceed
+		add(mk(fmt.Sprintf("seq-once-cancel-n%d", n), n, []string{"a", "b", "c", "d", "e"}, map[string]*Task{
+			"a": {Ign: true, Cmds: []Cmd{call("b", ""), call("c", ""), sh(0)}},
+			"b": {Deps: []CallSite{dep("d"), dep("e")}, Cmds: []Cmd{sh(0)}},
+			"c": {Deps: []CallSite{dep("d")}, Cmds: []Cmd{sh(0)}},
+			"d": {Run: "once", Cmds: []Cmd{sh(0), sh(0)}},
+			"e": {Cmds: []Cmd{sh(3)}},
+		}))
 		// nested calls, fail deep, defers on the way
 		add(mk(fmt.Sprintf("nested-defer-n%d", n), n, []string{"a", "b", "c"}, map[string]*Task{
 			"a": {Cmds: []Cmd{{K: "dsh"}, sh(0), call("b", "one"), sh(0)}},
@@ -361,6 +374,34 @@ func Core() []*Program {
 		"a": {Cmds: []Cmd{call("b", "one"), call("b", "two"), call("b", "one"), sh(0)}},
 		"b": {Run: "when_changed", VUse: "env", Cmds: []Cmd{sh(0)}},
 	}))
+	// two variables whose values are swapped between the calls, reaching only env
+	add(mk("when-changed-env-pair", 0, []string{"a", "b"}, map[string]*Task{
+		"a": {Cmds: []Cmd{call("b", "one+two"), call("b", "two+one"), call("b", "one+one"), call("b", "two+two"), sh(0)}},
+		"b": {Run: "when_changed", VUse: "env", Cmds: []Cmd{sh(0)}},
+	}))
+	add(mk("when-changed-pair-deps", 2, []string{"a", "b", "c"}, map[string]*Task{
+		"a": {Deps: []CallSite{depv("b", "one+two"), depv("b", "two+one")}, Cmds: []Cmd{call("c", "x+y"), call("c", "y+x"), sh(0)}},
+		"b": {Run: "when_changed", VUse: "env", Cmds: []Cmd{sh(0)}},
+		"c": {Run: "when_changed", Cmds: []Cmd{sh(0)}},
+	}))
+	// a nested call into a task whose dependency fails; with and without ignore_error on the caller
+	for _, ign := range []bool{false, true} {
+		add(mk(fmt.Sprintf("call-dep-fail-ign%v", ign), 0, []string{"a", "b", "c"}, map[string]*Task{
+			"a": {Ign: ign, Cmds: []Cmd{sh(0), call("b", ""), sh(0)}},
+			"b": {Deps: []CallSite{dep("c")}, Cmds: []Cmd{sh(0)}},
+			"c": {Cmds: []Cmd{sh(7)}},
+		}))
+	}
+	// more deps than slots, several of them waiting for one shared task
+	for _, n := range []int{2, 3} {
+		add(mk(fmt.Sprintf("shared-wait-fanout-n%d", n), n, []string{"a", "b", "c", "d", "e"}, map[string]*Task{
+			"a": {Deps: []CallSite{dep("b"), dep("c"), dep("d")}, Cmds: []Cmd{sh(0)}},
+			"b": {Deps: []CallSite{dep("e")}, Cmds: []Cmd{sh(0)}},
+			"c": {Deps: []CallSite{dep("e")}, Cmds: []Cmd{sh(0)}},
+			"d": {Cmds: []Cmd{sh(0)}},
+			"e": {Run: "once", Cmds: []Cmd{sh(0)}},
+		}))
+	}
 	// two roots, sequential and parallel
 	for _, par := range []bool{false, true} {
 		p := mk(fmt.Sprintf("two-roots-par%v", par), 2, []string{"a", "b", "c"}, map[string]*Task{
